@@ -476,6 +476,9 @@ func (s *Live) Shrinks(try func(core.Scenario) bool) bool {
 	// 1. drop whole sent messages (keeps the stream well-formed where it was) - only when
 	//    the following message does not depend on it for running status
 	for i := len(s.Sent) - 1; i >= 0; i-- {
+		if core.ShrinkOver() {
+			return false
+		}
 		m := s.Sent[i]
 		// only messages that are contiguous on the wire (no interleaved real-time)
 		if c := s.removeRange(m.Start, m.End+1); c != nil && s.stillWellFormed(c) {
@@ -506,6 +509,9 @@ func (s *Live) Shrinks(try func(core.Scenario) bool) bool {
 	}
 	// 3. merge chunks
 	for i := 0; i+1 < len(s.Chunks); i++ {
+		if core.ShrinkOver() {
+			return false
+		}
 		c := s.clone()
 		c.Chunks = append(append([]int{}, s.Chunks[:i]...), s.Chunks[i]+s.Chunks[i+1])
 		c.Chunks = append(c.Chunks, s.Chunks[i+2:]...)
@@ -517,6 +523,9 @@ func (s *Live) Shrinks(try func(core.Scenario) bool) bool {
 	}
 	// 4. zero deltas
 	for i, d := range s.Deltas {
+		if core.ShrinkOver() {
+			return false
+		}
 		if d != 0 {
 			c := s.clone()
 			c.Deltas[i] = 0
